@@ -662,7 +662,7 @@ def mutate_targeted(rng, doc):
             prev = ep["end_time"]
         if math.isinf(dm["start_time"]):
             emit("epoch.infinite-not-constant", lambda d: d["demes"][i]["epochs"][0].__setitem__("end_size", dm["epochs"][0]["start_size"] * 2))
-        emit("deme.name", lambda d: d["demes"][i].__setitem__("name", rng.choice(["", "1a", "a b", "a-b", names[0] if i else names[-1]])))
+        emit("deme.name", lambda d: d["demes"][i].__setitem__("name", rng.choice(["", "1a", "a b", "a-b", dm["name"] + "\n", "x\u00b2", "a\u2460", "x\u00bd", names[0] if i else names[-1]])))
     for i, m in enumerate(doc["migrations"]):
         lo = max(span[m["source"]][1], span[m["dest"]][1])
         hi = min(span[m["source"]][0], span[m["dest"]][0])
@@ -734,6 +734,16 @@ def mutate_targeted(rng, doc):
                            ("pulse", "sources", []), ("deme", "proportions", [0]), ("epoch", "size_function", 3),
                            ("migration", "end_time", -1), ("pulse", "dest", "")):
         emit("defaults.unused-invalid", lambda d, s=sect, k=key, v=val: d.__setitem__("defaults", {s: {k: v}}))
+    # the same, with every deme overriding the invalid top-level value in its own defaults (the top-level value is then used
+    # nowhere, and is still invalid)
+    for key, val, good in (("start_size", -1, 100), ("selfing_rate", 1.5, 0.5), ("cloning_rate", "x", 0), ("end_size", INF, 100),
+                           ("size_function", 3, "constant")):
+        def over(d, k=key, v=val, g=good):
+            d["defaults"] = {"epoch": {k: v}}
+            for dm in d["demes"]:
+                gg = dm["epochs"][0].get(k, g) if k in ("start_size", "end_size") else g
+                dm.setdefault("defaults", {}).setdefault("epoch", {})[k] = gg
+        emit("defaults.overridden-invalid", over)
     rng.shuffle(out)
     # one mutant of every kind first (so that truncating the list never drops a rule), then the rest
     seen, first, rest = set(), [], []
@@ -784,6 +794,13 @@ def boundary_families(rng):
             e = copy.deepcopy(base)
             e["migrations"] = [dict(source="B", dest="C", start_time=st, end_time=0, rate=0.1)]
             out.append(("family.migration-at-younger-start", e))
+        # ancestry proportions of one, two and three ancestors around a sum of one
+        for anc, props in ((["A"], [0.5]), (["A"], [0.999999]), (["A"], [1 - 1e-12]), (["A"], [1.0000001]), (["A"], [1]),
+                           (["A", "D"], [0.5, 0.4]), (["A", "D"], [0.5, 0.5]), (["A", "D"], [0.3, 0.7000001]),
+                           (["A", "D", "B"], [0.2, 0.3, 0.4]), (["A", "D", "B"], [0.2, 0.3, 0.5])):
+            e = copy.deepcopy(base)
+            e["demes"].append(deme("E", min(tb, tc) / 2, anc, props))
+            out.append(("family.ancestry-proportions-sum", e))
     rng.shuffle(out)
     return out
 
@@ -808,6 +825,48 @@ def sister_family(rng):
         demes.append(d)
     doc = dict(time_units="generations", demes=demes)
     return doc, rng.choice([s1, float(s1), s0, 100])
+
+
+def shared_defaults_family(rng):
+    """documents whose demes take `ancestors` (and pulses `sources`) from the top-level defaults, so that the resolved
+    objects share one list; two to four such demes below a root, optional chain of names for renaming"""
+    k = rng.randint(2, 4)
+    root = rng.choice(["A", "anc", "pop_0"])
+    kids = ["B", "C", "D", "E"][:k]
+    demes = [dict(name=root, epochs=[dict(start_size=1000, end_time=rng.choice([0, 50]))])]
+    for i, nm in enumerate(kids):
+        demes.append(dict(name=nm, epochs=[dict(start_size=100 + i, end_time=0)]))
+    doc = dict(time_units="generations", defaults=dict(deme=dict(ancestors=[root], start_time=rng.choice([100, 60.5]))),
+               demes=demes)
+    demes[0]["ancestors"] = []
+    demes[0]["start_time"] = float("inf")
+    if rng.random() < 0.6:
+        doc["defaults"]["pulse"] = dict(sources=[kids[0]], proportions=[0.1])
+        doc["pulses"] = [dict(dest=kids[1], time=10 + j) for j in range(rng.randint(2, 3))]
+    return doc
+
+
+def size_return_family(rng):
+    """demes whose epoch sizes are drawn from two values only, so that a size recurs after an epoch that changed it
+    (constant S, S -> T, constant S again, ...); all size functions; one or two demes"""
+    def epochs(k, top):
+        S, T = rng.choice([(100, 200), (1000.0, 250.0), (50, 50.5), (7, 7000)])
+        out, prev = [], None
+        for i in range(k):
+            ss = rng.choice([S, T]) if prev is None or rng.random() < 0.7 else prev
+            es = ss if (i == 0 and top) or rng.random() < 0.5 else rng.choice([S, T])
+            ep = dict(start_size=ss, end_size=es, end_time=(k - 1 - i) * 10)
+            if ss != es and rng.random() < 0.3:
+                ep["size_function"] = "linear"
+            out.append(ep)
+            prev = es
+        return out
+    k = rng.randint(3, 6)
+    demes = [dict(name="A", epochs=epochs(k, True))]
+    if rng.random() < 0.5:
+        demes.append(dict(name="B", ancestors=["A"], start_time=(k - 1) * 10 - 5, epochs=epochs(rng.randint(2, k - 1), False)))
+        demes[1]["epochs"] = [e for e in demes[1]["epochs"] if e["end_time"] < demes[1]["start_time"]]
+    return dict(time_units="generations", demes=demes)
 
 
 def sawtooth_family(rng):
